@@ -212,7 +212,9 @@ def evaluate(case):
             else:
                 data = m.t[p]
                 expect = ("data", data[off : off + rl] if rl is not None else data[off:])
-            call = lambda: fs.read_data(P, off, rl)
+            # "offset ... may be None": reading without an offset starts at the beginning of the file
+            ro = None if (off == 0 and len(payload) % 2 == 1) else off
+            call = lambda: fs.read_data(P, ro, rl)
         elif name == "size":
             if kp is None:
                 expect = ("raises", (FileNotFoundError,))
